@@ -154,6 +154,25 @@ theorem P04_pm_pose_quadrant (vx vy : Rat) (p : Pose) (h : PMPose vx vy p) (hx :
   have : 0 ≤ p.c * sp := mul_nonneg hcon (le_of_lt hpos)
   linarith
 
+/-- The heading of a point-mass state is a matter of the DIRECTION of `(vx, vy)` alone: scaling the vector by any positive
+    factor `k` — however small (a creeping obstacle, speed 1e-4 or 1e-300) or large — leaves the pose's direction unchanged.
+    In particular there is no speed below which the heading may be replaced by 0. -/
+theorem P04_pm_pose_scale (vx vy k : Rat) (hk : 0 < k) (p : Pose) (h : PMPose vx vy p) : PMPose (k * vx) (k * vy) p := by
+  obtain ⟨sp, hpos, hsq, hc, hs⟩ := h
+  refine ⟨k * sp, mul_pos hk hpos, ?_, ?_, ?_⟩
+  · have : k * sp * (k * sp) = k * k * (sp * sp) := by ring
+    rw [this, hsq]; ring
+  · rw [← hc]; ring
+  · rw [← hs]; ring
+
+/-- …and a slow vector pointing along +y has the direction (0, 1), not the direction (1, 0) of heading 0:
+    `(vx, vy) = (0, 1/5000)` (speed 2e-4). -/
+example (t : Pt) (a : Rat) : PMPose 0 (1 / 5000) ⟨t, a, 0, 1⟩ ∧ ¬ PMPose 0 (1 / 5000) ⟨t, a, 1, 0⟩ := by
+  refine ⟨⟨1 / 5000, by norm_num, by norm_num, by norm_num, by norm_num⟩, ?_⟩
+  rintro ⟨sp, hpos, _, hc, _⟩
+  simp at hc
+  linarith
+
 /-- a 2 × 2 square turned by a quarter turn about its centroid (1, 1) and moved by (10, 0). -/
 example : (match place 0 1 0 6 ⟨10, 0⟩ (.poly [⟨0, 0⟩, ⟨2, 0⟩, ⟨2, 2⟩, ⟨0, 2⟩]) with | .poly v => v | _ => [])
     = [⟨12, 0⟩, ⟨12, 2⟩, ⟨10, 2⟩, ⟨10, 0⟩] := by
